@@ -9,6 +9,7 @@ full-strength form is the instance at `.fixed`, and `…_pinned_witness` is a co
 import Olla.Model.Glob
 import Olla.Model.Registry
 import Olla.Spec.C10
+import Olla.Spec.State
 
 set_option linter.unusedSimpArgs false
 
@@ -2931,5 +2932,14 @@ theorem unified_sound_fixed (vs : Variants) (hd : vs.dropStale = .fixed) (ho : v
   exact hn
 
 end fixedTree
+
+/-! ### tie: no process-wide state on the modelled path
+
+The theorems above are about single calls (or the history of one object). They cover every
+request of a running process only if a call reaches no state that outlives it besides that
+object. `Olla.Gen.State` is re-read from the source on every run: the package-level variables
+reachable from each function inside its package that the package changes after initialisation. Here: the unifier's package-level variables are its lazily loaded default configuration (sync.Once guarded, written once); they hold no catalogue data. -/
+theorem C10_tie_no_process_wide_state :
+    Olla.Spec.State.reachesOnly "unifier.UnifyModels" ["configCache", "configCacheOnce", "configInstance", "configOnce", "errConfig"] = true := by decide
 
 end Olla.Props.C10
